@@ -113,7 +113,7 @@ fn port_gen() -> impl Strategy<Value = u16> {
 pub fn run(run: &mut Run) {
     umh::install();
     run.assume("in/out executed in ring 3 raise #GP; the trap handler's decoder (written from the SDM opcode map: EC/ED/EE/EF, 66 prefix = 16 bit; E4-E7 immediate and 6C-6F string forms are reported as BadIo) and device model are trusted");
-    let n = run.cases(120_000, 0);
+    let n = run.cases(300_000, 0);
     let tier_thorough = run.tier == crate::engine::Tier::Thorough;
     if !tier_thorough {
         run.sub(
